@@ -1,5 +1,5 @@
 """Human-written manifest texts per property."""
-HOOK_COMMITS = ["0db57c5", "986d32b"]
+HOOK_COMMITS = ["0db57c5", "986d32b", "2fcd781"]
 ENGINES = [
     {"name": "E-single", "path": "/verif/harness (svh run, native cfg)", "serves_properties": [], "kind_free_text":
      "single handle, single thread: seeded program+history generator, reference interpreter as value oracle, event-log monitors"},
@@ -11,13 +11,77 @@ SINGLE_NOTE = ("Trusted base: the harness's reference interpreter (cross-checked
                "of requests, disagreement => inconclusive), the generated program family (interpreter-shaped generic tracked "
                "functions), salsa's public Event stream and the harness's own body log. Nothing is claimed beyond the "
                "executions produced for the given seed.")
+def E(tech, text, note=SINGLE_NOTE, engine="E-single"):
+    return {"engine": engine, "technique": "runtime monitoring: " + tech, "text": text, "note": note}
+
+
+VOL = ("Exploration: ~2*10^5 (quick) to several 10^6 (thorough, also without debug assertions) seeded program+history pairs are "
+       "executed on the real database on one handle. ")
 META = {
-    "C01": {
-        "engine": "E-single",
-        "technique": "runtime monitoring: differential value oracle (reference interpreter) over generated histories",
-        "text": "Exploration: tens of thousands (quick) to ~10^6 (thorough) seeded program+history pairs are executed on the "
-                "real database; every returned value (tracked fns, struct fields, interned read-backs) is compared with a "
-                "from-scratch reference evaluation on the current inputs. Held = no mismatch on any explored request.",
-        "note": SINGLE_NOTE,
-    },
+    "C01": E("differential value oracle (reference interpreter) over generated histories",
+             VOL + "Every returned value (tracked fns with 0/1/2 arguments, struct fields, interned read-backs, functions keyed by structs "
+             "and interned values) is compared with a from-scratch reference evaluation on the current inputs; unexpected panics and "
+             "runaway re-execution (step bound) are violations. Held = no mismatch on any explored request."),
+    "C02": E("differential value oracle + never-change panic model over durability-mixed histories",
+             VOL + "Writes pick durabilities keep/LOW/MEDIUM/HIGH/NEVER_CHANGE (raising and lowering), synthetic writes use every durability. "
+             "Values are compared with the reference; a write to a frozen field or a never-change synthetic write must panic with the "
+             "never-change message and later results must not move; a quiescent walk checks that the per-durability revisions never increase "
+             "with durability (anomalies trigger follow-up requests, they are not verdicts)."),
+    "C03": E("event-trace justification monitor over WillExecute/DidValidateMemoizedValue and the harness's read log",
+             VOL + "A shadow red-green model is replayed over the event log: each WillExecute must be justified by one of the clauses of "
+             "the property (first execution, key re-generated/discarded, value evicted, previous execution read untracked state, an input "
+             "field it read was written, a tracked field recreated with a different value / no_eq / lower durability, a callee produced a "
+             "different value / is no_eq / became less durable, an interned value was reclaimed). The model is never stricter than the "
+             "statement; the evidence lists how often each clause justified an execution."),
+    "C04": E("differential value oracle + per-revision re-execution rule for untracked readers",
+             VOL + "Harness cells are read through untracked reads and poked between revisions (always followed by a synthetic write of a "
+             "random durability). Values are compared with the reference reading the poked cells, and in every later revision a function "
+             "whose last execution read untracked state must show a WillExecute before the request returns whenever a from-scratch "
+             "evaluation of the request calls it."),
+    "C05": E("exact LRU reference model vs boundary observation of retained values, plus value oracle",
+             VOL + "Transparency: all values vs the reference. Boundedness: after every new revision / eviction trigger the set of lru keys "
+             "that still hold a value is observed at the boundary (live-instance registry of the result type: a value exists or has been "
+             "dropped) and compared with a 20-line LRU model (move-to-back on every fetch while capacity != 0, pop-front while over capacity, "
+             "untracked results exempt, capacity 0 disables). Dependency retention: an evicted key must not execute before it is requested."),
+    "C06": E("identity reference model over struct ids, discard events and entries() enumeration",
+             VOL + "The identity of every created struct is recorded (salsa::plumbing::AsId) and compared with a model keyed by (creator key, "
+             "identity field value, per-identity occurrence): preserved across creator re-execution, distinct otherwise; structs no longer "
+             "created must be discarded (DidDiscard) and must disappear from Ent::ingredient().entries(); values of functions keyed by "
+             "structs vs the reference."),
+    "C07": E("differential value oracle with key-digest results under slot churn",
+             VOL + "Interned types with revisions=1..3 and a constant hash (one shard, reuse almost every revision) and makers that toggle "
+             "creation keep the free list and the interned LRU hot. Every struct/interned/tuple keyed function returns a digest of its "
+             "key's fields, so a memo or field aliased across a reused slot changes a returned value; all values vs the reference, plus the "
+             "identity bookkeeping of C06."),
+    "C09": E("trace monitor: retention reference model over intern/reuse/validate events",
+             VOL + "Every DidReuseInternedValue is checked against a model of the retention rule: type not immortal, slot only ever interned by "
+             "LOW-durability activations, slot not used (interned or revalidated through a dependent, observed with hook `InternedDependencyChecked`) "
+             "in any of the last `revisions` revisions that used the type, and at least that many such revisions exist. Identity continuity "
+             "of non-reclaimable values is checked across revisions. The model is deliberately no stricter than the code (property is an 'only if')."),
+    "C10": E("differential value oracle + no-execution-after-specify monitor + expected panics",
+             VOL + "Creators conditionally specify values (optionally after reading the function on their own struct, twice, or on foreign "
+             "structs). q_spec results are compared with the reference under creator-first and reader-first orders and across revisions in "
+             "which the creator re-executes, backdates, is validated green or stops specifying; a body execution after a specification in the "
+             "same revision, or a missing/incorrect specify panic, is a violation."),
+    "C11": E("differential oracle on accumulated lists (order and multiset)",
+             VOL + "f::accumulated::<Diag>() is compared with the reference's depth-first list of a from-scratch evaluation, for roots at "
+             "all depths, before and after plain requests of the same functions, while contributing memos are reused, deep/shallow verified, "
+             "backdated or become never-change."),
+    "C12": E("differential value oracle: least fixpoint by two independent solvers",
+             VOL + "Cyclic programs over a bit-set lattice (monotone bodies, nested/intertwined/conditional cycles, value-controlled monotone "
+             "branches, default and joining cycle_fn); every node is an entry point in some history. Each returned value is compared with the "
+             "least fixpoint computed by Kleene iteration and by an independent worklist solver (disagreement between them = inconclusive). "
+             "Known finding F5 (stale inner head) is reported as KNOWN-FINDING by exact root-cause signature."),
+    "C13": E("differential value oracle: SCC analysis of the input-determined call graph",
+             VOL + "All functions use cycle_result; call edges depend on inputs only, so participation is order independent. Each returned "
+             "value is compared with: fallback for members of cyclic SCCs, body value over those results otherwise. Known finding F4 "
+             "(participant executed outside its cycle) is reported as KNOWN-FINDING by exact root-cause signature."),
+    "C14": E("outcome-class monitor (cycle panic / value / hang by step bound) + later-value oracle, single thread",
+             VOL + "Requests whose input-determined graph contains a cycle of only non-recovering functions must panic with a cycle error "
+             "(never return, never exceed the logical step bound); mixed cycles may panic or return the least fixpoint; afterwards and after "
+             "writes that break the cycle every value must equal the reference. Threaded entry is covered by the concurrent engines (see C16/C18/C19)."),
+    "C15": E("iteration-count and panic-class monitor + later-value oracle",
+             VOL + "Non-monotone bodies over 12-bit values inside cycles: WillIterateCycle numbers must stay <= 200, the request must end in a "
+             "'too many cycle iterations' panic (or a propagated panic for re-requests in the same revision) and never exceed the logical "
+             "step bound; after a write that makes the bodies monotone all values must equal the least fixpoint."),
 }
